@@ -41,10 +41,15 @@ Zero0 == Bin("minus", A, A)
 One1 == Bin("divide", A, A)
 Funs == {Un(f, Cn(0, 1)) : f \in DOMAIN AtZero} \cup {Un(f, Zero0) : f \in DOMAIN AtZero} \cup {Un(f, Cn(1, 1)) : f \in DOMAIN AtOne} \cup {Un(f, One1) : f \in DOMAIN AtOne}
         \cup {Bin("plus", Un(f, Zero0), B) : f \in {"cos", "exp", "sec", "cosh"}} \cup {Bin("times", Un("exp", Zero0), Un("cos", Cn(0, 1))), Un("exp", Un("ln", Cn(1, 1))), Un("ln", Un("exp", Cn(0, 1)))}
+Half == Cn(1, 2)
+Two == Cn(2, 1)
+RecipTrees == {Bin("times", Un(r, Two), Un(Recip[r], Two)) : r \in DOMAIN Recip} \cup {Bin("times", Un(r, A), Un(Recip[r], A)) : r \in DOMAIN Recip}
+              \cup {Bin("times", Un(InvOf[a], Un(a, Two)), Two) : a \in DOMAIN InvOf \ {"arcsech"}} \cup {Bin("times", Un("cosh", Un("arcsech", Half)), Half)}
+              \cup {Bin("plus", Bin("times", Un("csc", Two), Un("sin", Two)), B), Bin("times", Un("sin", Un("arccsc", Un("minus", Two))), Un("minus", Two))}
 Consts == {N("true", <<>>), N("false", <<>>)} \cup {Bin("and", [op |-> "true"], Bin("lt", A, B)), Bin("or", [op |-> "false"], Bin("lt", A, B)), Un("not", [op |-> "true"]),
           Pw(<<<<A, [op |-> "true"]>>>>, B), Pw(<<<<A, [op |-> "false"]>>>>, B)}
 Leaves == {A, Cn(3, 1), Cn(1, 2), Cn(-7, 1), Cn(5, 4), Un("minus", Cn(3, 1))}
-AllTrees == Arith2 \cup Nary \cup Unary2 \cup Rel1 \cup Logic2 \cup RelNest \cup Piecewise \cup Quals \cup Funs \cup (Consts \ {N("true", <<>>), N("false", <<>>)}) \cup {[op |-> "true"], [op |-> "false"]} \cup Leaves
+AllTrees == Arith2 \cup Nary \cup Unary2 \cup Rel1 \cup Logic2 \cup RelNest \cup Piecewise \cup Quals \cup Funs \cup RecipTrees \cup (Consts \ {N("true", <<>>), N("false", <<>>)}) \cup {[op |-> "true"], [op |-> "false"]} \cup Leaves
 QuickTrees == {t \in AllTrees : TRUE}
 Envs == <<[a |-> I(2), b |-> I(3), c |-> I(5)], [a |-> I(-3), b |-> I(2), c |-> Q(1, 2)], [a |-> I(7), b |-> I(7), c |-> I(-2)], [a |-> Q(3, 2), b |-> I(-1), c |-> I(4)]>>
 =============================================================================
